@@ -85,6 +85,26 @@ fn main() {
         let ovs_s = if ovs.is_empty() { ".".to_string() } else { ovs.iter().map(|(k, a, p)| format!("{}:{}:{}", k, hexs(a), p + 100)).collect::<Vec<_>>().join(";") };
         writeln!(out, "prio {} {}\t{}", bins_s, ovs_s, if order.is_empty() { ".".to_string() } else { order.join(",") }).unwrap();
     }
+    // thread counts: test-threads / a group's max-threads from the command line (FromStr) and from TOML (Deserialize),
+    // positive, relative to the CPU count (negative), and far below zero: the computed count is never below 1
+    let ncpu = std::thread::available_parallelism().map(|n| n.get()).unwrap_or(1) as i64;
+    for v in [1i64, 2, 7, 64, -1, -2, -(ncpu - 1), -ncpu, -(ncpu + 1), -4096, 0] {
+        let cli = match v.to_string().parse::<nextest_runner::config::TestThreads>() { Ok(t) => t.compute().to_string(), Err(_) => "err".to_string() };
+        writeln!(out, "threads {} {}\t{}", v, ncpu, cli).unwrap();
+        let toml = format!("[test-groups]\ng = {{ max-threads = {} }}\n[profile.default]\ntest-threads = {}\n", v, v);
+        std::fs::write(dir.join(".config/nextest.toml"), &toml).unwrap();
+        let shown = match NextestConfig::from_sources(dir.clone(), &pcx, None, &[][..], &BTreeSet::new()) {
+            Ok(cfg) => {
+                let bp = BuildPlatforms::new_with_no_target().unwrap();
+                let profile = cfg.profile("default").unwrap().apply_build_platforms(&bp);
+                let g = profile.test_group_config().values().next().map(|c| c.max_threads.compute());
+                match g { Some(g) if g == profile.test_threads().compute() => g.to_string(), Some(g) => format!("group={}!=profile={}", g, profile.test_threads().compute()), None => "nogroup".to_string() }
+            }
+            Err(_) => "err".to_string(),
+        };
+        writeln!(out, "threads {} {}\t{}", v, ncpu, shown).unwrap();
+        *dist.entry("threads".into()).or_insert(0) += 2;
+    }
     out.flush().unwrap();
     let d: Vec<String> = dist.iter().map(|(k, v)| format!("{}={}", k, v)).collect();
     eprintln!("DIST {}", d.join(" "));
